@@ -44,7 +44,9 @@ CHECKS["C06"] = dict(
          "the allocation to the id-response line; no response when no id is free. Correspondence compares emitted lines and the "
          "known-id set per op; the oracle collects id-response payloads across real restarts sharing one file. "
          "stop_window_ids (Properties/C06Stop.lean): an id response that goes out while stop() runs is in the file stop() "
-         "leaves, for every interleaving of the pump with stop()'s disconnect-then-save (order recorded on the real stop()).",
+         "leaves, for every interleaving of the pump with stop()'s disconnect-then-save (order recorded on the real stop()). "
+         "mqtt_stop_window: on the thread-based MQTT gateway (nothing to disconnect) commands still queued when stop() sets the "
+         "stop event are not run, so every id published is in the file (real MQTTGateway with a backlog, real _poll_queue).",
     note="Trusted: Lean kernel; Model/Gateway.lean (validated by correspondence); persistence abstraction as in C14; the ghost "
          "definition allocs (ties to the emitted line by theorem alloc_reply).",
     design_ref="DESIGN.md §6 C06")
